@@ -70,7 +70,13 @@ Quick tour
             "right" | "fresh" (another self-signed certificate, other key) |
             "samekey" (another self-signed certificate over the SAME key) |
             "top" (the certificate of x509[0], i.e. a key of the chain but not the root's) |
-            "foreign" (the foreign self-signed root, cf. embed)
+            "foreign" (the foreign self-signed root, cf. embed) |
+            "v1root" (a root of trust of another kind: a version-1 root = bare secp256k1 key; the
+            "root_pem" returned is then the text "v1root:<hex>")
+    graft   {"under": "attkey"|"quote", "sig": "self"|"certifier"|"other"}: a forged branch - X.509
+            element evil_ca whose named certifier is a genuine NON-X.509 element (g_attestation /
+            g_quote, certified by the genuine chain); the attestation key and the quote (target) hang
+            from evil_ca
     shuffle bool: shuffle the order of the elements in the JSON document
     pem_newlines bool: base64 of X.509 elements split in 64-column lines
 
@@ -776,6 +782,44 @@ def build(spec, rng, now=None):
         p = elements[n]["signed_by"]
         donor = make_x509(cns[n] + " donor", Key("P256"), cns[p], keys[p], "Valid", now, rng)
         der[n] = splice_signature(der[n], donor)
+    # --- forged branch grafted under an element of another kind -------------------------------------
+    # spec["graft"] = {"under": "attkey"|"quote", "sig": "self"|"certifier"|"other"}: the chain built so
+    # far stays genuine and certifies a GENUINE attestation key g_attestation (and, for "quote", a genuine
+    # quote g_quote signed by it); an X.509 element evil_ca names that non-X.509 element as its
+    # certifier ("self": self-signed; "certifier": really signed by the genuine attestation key's
+    # private key; "other": by a stranger) and the attestation key / quote built below hang from evil_ca.
+    graft = sp.get("graft")
+    graft_names = []
+    if graft:
+        gan, gqn, ecn_ = "g_attestation", "g_quote", "evil_ca"
+        keys[gan] = Key("P256")
+        g_auth = rng.randbytes(32)
+        g_fields = REPORT_BODY.random(rng)
+        g_fields["report_data"] = hashlib.sha256(keys[gan].xy() + g_auth).digest() + bytes(32)
+        g_body = REPORT_BODY.pack(g_fields)
+        elements[gan] = {"name": gan, "type": "sgx_attestation_key", "message": g_body.hex(),
+                         "key": keys[gan].encoded("uncompressed").hex(), "auth_data": g_auth.hex(),
+                         "signature": keys[parent].sign(g_body).hex(), "signed_by": parent}
+        graft_names.append(gan)
+        under = gan
+        if graft.get("under") == "quote":
+            g_custom = rng.randbytes(40)
+            g_qbody = REPORT_BODY.random(rng)
+            g_qbody["report_data"] = hashlib.sha256(g_custom).digest() + bytes(32)
+            g_qmsg = QUOTE_HEADER.pack(QUOTE_HEADER.random(rng)) + REPORT_BODY.pack(g_qbody)
+            elements[gqn] = {"name": gqn, "type": "sgx_quote", "message": g_qmsg.hex(),
+                             "custom_data": g_custom.hex(), "signature": keys[gan].sign(g_qmsg).hex(),
+                             "signed_by": gan}
+            graft_names.append(gqn)
+            under = gqn
+        keys[ecn_] = Key("P256")
+        cns[ecn_] = "evil ca %d" % rng.getrandbits(32)
+        gsig = graft.get("sig", "self")
+        esigner = keys[ecn_] if gsig == "self" else (keys[gan] if gsig == "certifier" else Key("P256"))
+        der[ecn_] = make_x509(cns[ecn_], keys[ecn_], cns[ecn_], esigner, "Valid", now, rng, tag=ecn_)
+        elements[ecn_] = {"name": ecn_, "type": "x509_pem", "signed_by": under}
+        graft_names.append(ecn_)
+        parent = ecn_
     # --- attestation key ---------------------------------------------------------------------------
     a = dict(default_spec()["attkey"])
     a.update(sp.get("attkey") or {})
@@ -843,7 +887,8 @@ def build(spec, rng, now=None):
         pem[n] = der_to_pem(der[n])
         if n in elements:
             elements[n]["message"] = der_to_b64(der[n], sp.get("pem_newlines", False))
-    order = [qn, an] + list(reversed(xnames)) + [x["name"] for x in sp.get("extra") or []]
+    order = [qn, an] + list(reversed(graft_names)) + list(reversed(xnames)) + \
+        [x["name"] for x in sp.get("extra") or []]
     emb = sp.get("embed")
     if emb:
         ekey = keys[ROOT_NAME] if emb["kind"] == "genuine" else keys["foreign_root"]
@@ -885,6 +930,11 @@ def build(spec, rng, now=None):
     else:
         roots["top"] = pem[xnames[0]] if xnames else pem[ROOT_NAME]
         roots["foreign"] = der_to_pem(foreign_der)
+    # a root of trust of ANOTHER KIND: a version-1 root (a bare secp256k1 public key), handed over as
+    # the text "v1root:<hex of the uncompressed key>"
+    import ecdsa as _ecdsa
+    roots["v1root"] = "v1root:" + _ecdsa.SigningKey.generate(curve=_ecdsa.SECP256k1) \
+        .verifying_key.to_string("uncompressed").hex()
     material = {
         "now": now, "clock": now if (edge or timeline) else None, "clocks": clocks, "windows": windows,
         "keys": keys, "der": der, "pem": pem,
@@ -1188,6 +1238,25 @@ def abstract_of(mat, effects=None, at=None):
         els[ROOT_NAME] = {"kind": "x509", "by": ROOT_NAME, "key": ek, "sigBy": ek if self_ok else "other",
                           "naming": "canon", "time": t, "win": w, "curve": "P256", "binds": True,
                           "keyValid": True, "label": "plain"}
+    graft = sp.get("graft")
+    if graft:
+        plain = {"time": "na", "win": "na", "naming": "na", "binds": True, "keyValid": True, "label": "plain"}
+        els["g_attestation"] = dict(plain, kind="attkey", by=parent, key="g_attestation",
+                                    sigBy=keyid[parent], curve="P256")
+        under = "g_attestation"
+        if graft.get("under") == "quote":
+            els["g_quote"] = dict(plain, kind="quote", by="g_attestation", key="nokey",
+                                  sigBy="g_attestation", curve="na")
+            under = "g_quote"
+        gsig = graft.get("sig", "self")
+        t, w = time_win("evil_ca", {"time": "Valid"})
+        els["evil_ca"] = {"kind": "x509", "by": rep.get("evil_ca", under), "key": "evil_ca",
+                          "sigBy": "other" if (gsig == "other" or "sig" in effects.get("evil_ca", ()))
+                          else ("evil_ca" if gsig == "self" else "g_attestation"),
+                          "naming": "canon", "time": t, "win": w, "curve": "P256", "binds": True,
+                          "keyValid": True, "label": "plain"}
+        keyid["evil_ca"] = "evil_ca"
+        parent = "evil_ca"
     a = dict(default_spec()["attkey"])
     a.update(sp.get("attkey") or {})
     an = a["name"]
@@ -1216,6 +1285,8 @@ def abstract_of(mat, effects=None, at=None):
         rkey, rcurve = keyid[sp["x509"][0]["name"]], _curve_class(mat["keys"][sp["x509"][0]["name"]])
     elif which == "foreign":
         rkey, rcurve = "foreign", "P256"
+    elif which == "v1root":
+        rkey, rcurve = "wrong", "Other"
     else:
         rkey, rcurve = "wrong", _curve_class(mat["keys"]["fresh_root"])
     root_item = {"time": "Valid"}
@@ -1223,7 +1294,8 @@ def abstract_of(mat, effects=None, at=None):
     rt, rw = time_win("rot:" + (ROOT_NAME if which == "right" else which), root_item)
     if not clocks:
         rt, rw = "Valid", "all"        # (off a timeline the handed-over roots are always in their period)
-    rot = {"kind": "x509", "by": ROOT_NAME, "key": rkey, "sigBy": ROOT_NAME, "time": rt, "win": rw,
+    rot = {"kind": "v1root" if which == "v1root" else "x509", "by": ROOT_NAME, "key": rkey,
+           "sigBy": ROOT_NAME, "time": rt, "win": rw,
            "naming": "canon", "curve": rcurve, "binds": True, "keyValid": True, "label": "plain"}
     return {"cert": els, "rot": rot, "target": qn, "unspecified": unspecified}
 
